@@ -6,12 +6,13 @@ import copy
 from harness import core
 from harness.core import Z
 from harness.main import Finding, Suite
-from harness.props import c03, c04, c05, c06
+from harness.props import c01, c02, c03, c04, c05, c06
 from harness.readers import call, outcome_of
 
 PROPERTY = "C08"
 PROPS_FILE = "Props/C08.v"
-MODEL_FILES = ["Model/AlignedStream.v", "Model/Lru.v", "Model/Vhd.v", "Model/Vdi.v", "Model/Vhdx.v", "Model/Hds.v"]
+MODEL_FILES = ["Model/AlignedStream.v", "Model/Lru.v", "Model/Vhd.v", "Model/Vdi.v", "Model/Vhdx.v", "Model/Hds.v",
+               "Model/Qcow2.v", "Model/Vmdk.v"]
 META = {
     "category": "proof",
     "text": "Coq theorems: (1) the AlignedStream state machine (seek/read/peek/readoffset/tell with its alignment buffer) over "
@@ -353,6 +354,115 @@ class ReaderStreamSuite(Suite):
         return d
 
 
+class Qcow2VmdkStreamSuite(Suite):
+    """Histories on QCow2 / VMDK streams at one buffer size. The array content is the generators' own intent oracle
+    (independent of Coq); the model is the stream state machine over the reader models of C01 / C02."""
+    shard = 6
+    per_case_timeout = 90.0
+
+    def __init__(self, fmt, bufsize):
+        self.fmt = fmt
+        self.bufsize = bufsize
+        self.name = f"{fmt}_{bufsize}"
+        self.env = {"DISSECT_STREAM_BUFFER_SIZE": bufsize}
+        self.preamble = (c01.Qcow2Suite.preamble if fmt == "qcow2" else c02.VmdkSuite.preamble) + \
+            "From DH Require Import Model.AlignedStream.\n"
+
+    def generate(self, rng, tier):
+        n = 80 if tier == "thorough" else 8
+        out = []
+        tries = 0
+        while len(out) < n and tries < 2000:
+            tries += 1
+            if self.fmt == "qcow2":
+                c = c01.gen_case(rng, "quick")
+                size = c["size"]
+            else:
+                c = c02.gen_case(rng, "quick")
+                size = (c["capacity"] * 512) if c["kind"] != "flat" else c["fsize"] // 512 * 512
+            if size > 3 * (1 << 20) or size <= 0:
+                continue
+            c = copy.deepcopy(c)
+            c.pop("reqs", None)
+            out.append({"fmt": self.fmt, "img": c, "size": size, "bufsize": self.bufsize,
+                        "ops": gen_ops(rng, size, self.bufsize, rng.randint(3, 25))})
+        return out
+
+    def _open(self, case):
+        img = case["img"]
+        if self.fmt == "qcow2":
+            from dissect.hypervisor.disk import qcow2 as Q
+            fh, data, backing = c01.build_files(img)
+            bk = img["backing"]
+            barg = None
+            if bk is not None:
+                barg = backing if bk.get("size") is not None else Q.ALLOW_NO_BACKING_FILE
+            return Q.QCow2(fh, data_file=data, backing_file=barg)
+        from dissect.hypervisor.disk.vmdk import VMDK
+        fh, _ = c02.build_image(img)
+        return VMDK(fh)
+
+    def impl(self, case):
+        import dissect.util.stream as st
+        if st.STREAM_BUFFER_SIZE != case["bufsize"]:
+            return {"outcome": "crash", "detail": f"buffer size not applied: {st.STREAM_BUFFER_SIZE}"}
+        stream = self._open(case)
+        if int(stream.size) != case["size"]:
+            return {"outcome": "crash", "detail": f"size {int(stream.size)} != {case['size']}"}
+        return run_ops(stream, case["ops"])
+
+    def coq_term(self, case):
+        size, align, img = case["size"], case["bufsize"], case["img"]
+        ops = coq_ops(case["ops"])
+        if self.fmt == "qcow2":
+            lay = c01.layout(img)
+            return (f"let im := {c01.coq_image(img, lay)} in "
+                    f"(run_outs {size} {align} (blen_plan (fun off len => qcow2_read im (fuel_for im len) off len)) {ops}, "
+                    f"spec_run {size} 0 {ops})")
+        if img["kind"] == "flat":
+            return (f"let v := mk_vmdk [XRaw {Z(img['fsize'])} 0] in "
+                    f"(run_outs {size} {align} (blen_plan (fun off len => match vmdk_read v off len with Ok p => Ok (plan_of_x p) "
+                    f"| Err => Err | Fuel => Fuel end)) {ops}, spec_run {size} 0 {ops})")
+        fh, _ = c02.build_image(img)
+        return (f"let f := {c02.file_term(img, fh)} in match open_sparse f with "
+                f"| Ok sp => let v := mk_vmdk [XSparse f sp false] in "
+                f"(run_outs {size} {align} (blen_plan (fun off len => match vmdk_read v off len with Ok p => Ok (plan_of_x p) "
+                f"| Err => Err | Fuel => Fuel end)) {ops}, spec_run {size} 0 {ops}) "
+                f"| _ => (Err, []) end")
+
+    def judge(self, case, impl_res, coq_val):
+        fmt = self.fmt
+        if isinstance(impl_res, dict):
+            return [Finding("impl_fault", f"implementation {impl_res}", f"{fmt}:stream:" + str(impl_res.get("outcome")))]
+        _, model_v, spec_v = coq_val
+        img = case["img"]
+        if fmt == "qcow2":
+            files = c01.build_files(img)
+
+            def content(s, l):
+                return c01.intent_bytes(img, s, l, files)
+        else:
+            fh, infl = c02.build_image(img)
+            vs = c02.VmdkSuite()
+
+            def content(s, l):
+                if l <= 0:
+                    return b""
+                s0 = s // 512
+                cnt = (s + l + 511) // 512 - s0
+                return vs.intent_bytes(img, fh, infl, s0, cnt)[s - s0 * 512:s - s0 * 512 + l]
+        return compare_history(case["ops"], impl_res, model_v, spec_v, content, fmt)
+
+    def nontrivial(self, case, impl_res, coq_val):
+        return core.sha(core.jdump(case).encode()) if history_nontrivial(case["ops"], 512) else None
+
+    def dist(self, case):
+        return {"fmt": case["fmt"], "bufsize": case["bufsize"], "nops": len(case["ops"]) // 5 * 5}
+
+
 SUITES = {"synth": SynthSuite()}
+for _f in ("qcow2", "vmdk"):
+    for _b in (512, 8192, 131072):
+        SUITES[f"{_f}_{_b}"] = Qcow2VmdkStreamSuite(_f, _b)
 for _b in (512, 4096, 8192, 65536, 2097152):
     SUITES[f"readers_{_b}"] = ReaderStreamSuite(_b)
